@@ -57,9 +57,97 @@ PAREN_SEEDS = ["(a) = 1", "(a.b) = 1", "(a[1]) = 1", "((a)) = 1", "x, (y) = 1, 2
 PAREN_VALID = {"(a).b = 1", "(a)[1] = 1", "(a)()", "x = {[(a)] = 1, (a)}", "x = (a) + 1", "(a.b).c = 1", "(a)(b).c = 1", "x = {(a)}"}
 
 
+def param_lists(toks):
+    """(open, close) token indices of every parameter list: `function` [Name {. Name} [: Name]] `(` ... `)`"""
+    out = []
+    for i, t in enumerate(toks):
+        if not (t.kind == "kw" and t.text == b"function"):
+            continue
+        j = i + 1
+        if j < len(toks) and toks[j].kind == "name":
+            j += 1
+            while j + 1 < len(toks) and (is_op(toks[j], b".") or is_op(toks[j], b":")) and toks[j + 1].kind == "name":
+                j += 2
+        if j < len(toks) and is_op(toks[j], b"("):
+            k = j + 1
+            while k < len(toks) and (toks[k].kind == "name" or is_op(toks[k], b",") or is_op(toks[k], b"...")):
+                k += 1
+            if k < len(toks) and is_op(toks[k], b")"):
+                out.append((j, k))
+    return out
+
+
+def mutate_parlist(toks, rng):
+    """grammar-aware mutant of a parameter list: parlist ::= namelist [`,` `...`] | `...` - the vararg marker is legal in
+    the LAST position only. Moves `...` away from the end (swap with a neighbour), puts `, Name` / `, ...` behind it, puts it
+    first / in the middle, drops or doubles commas (seeded/C03-6: the loop went on after the marker, `f(a, ..., b)` accepted);
+    some mutants stay valid (`(a, b)` -> `(a, b, ...)`): the reference recogniser decides"""
+    T, Tok = luagen.T, luagen.Tok
+    pls = param_lists(toks)
+    if not pls:
+        return None
+    a, b = rng.choice(pls)
+    inner = list(toks[a + 1:b])
+    nm = lambda: Tok("name", rng.choice([b"a", b"b", b"p", b"self", b"n1"]))
+    va = [j for j, t in enumerate(inner) if is_op(t, b"...")]
+    k = rng.random()
+    if va and k < 0.75:
+        j = va[-1]
+        m = rng.randrange(6)
+        if m == 0 and j >= 2:                       # (a, b, ...) -> (a, ..., b)
+            inner[j], inner[j - 2] = inner[j - 2], inner[j]
+        elif m == 1:                                # (a, ...) -> (a, ..., b [, c])
+            for _ in range(rng.choice([1, 1, 2])):
+                inner[j + 1:j + 1] = [T(","), nm()]
+        elif m == 2:                                # (a, ...) -> (a, ..., ...)
+            inner[j + 1:j + 1] = [T(","), T("...")]
+        elif m == 3:                                # (a, ...) -> (a, ..., b, ...)
+            inner[j + 1:j + 1] = [T(","), nm(), T(","), T("...")]
+        elif m == 4:                                # (a, ...) -> (a, ... b) / (a, ... ...) / (a, ...,)
+            inner[j + 1:j + 1] = rng.choice([[nm()], [T("...")], [T(",")]])
+        else:                                       # (a, b, ...) -> (..., a, b)
+            del inner[j]
+            if j >= 1:
+                del inner[j - 1]
+            inner[0:0] = [T("..."), T(",")] if inner else [T("...")]
+    else:
+        m = rng.randrange(7)
+        names = [j for j, t in enumerate(inner) if t.kind == "name"]
+        if m == 0:                                  # (a, b) -> (a, b, ...)   (valid)
+            inner += ([T(",")] if inner else []) + [T("...")]
+        elif m == 1 and names:                      # (a, b) -> (a, ..., b)
+            j = rng.choice(names)
+            inner[j:j] = [T("..."), T(",")]
+        elif m == 2 and names:                      # (a, b) -> (..., b) / (a, ...) by replacement
+            inner[rng.choice(names)] = T("...")
+        elif m == 3 and names:                      # (a, b) -> (a, b, ..., c, d)
+            inner += [T(","), T("...")]
+            for _ in range(rng.choice([1, 2, 3])):
+                inner += [T(","), rng.choice([nm(), nm(), T("...")])]
+        elif m == 4:                                # trailing / leading / doubled comma
+            j = rng.randrange(len(inner) + 1)
+            inner[j:j] = [T(",")]
+        elif m == 5 and names:                      # (a, b) -> (a, b, ... c)
+            inner += [T(","), T("..."), nm()]
+        else:
+            inner += ([T(",")] if inner else []) + [T("..."), T(","), nm()]
+    return list(toks[:a + 1]) + inner + list(toks[b:])
+
+
+PARLIST_SEEDS = ["function f(a, ..., b) end", "function f(a, ..., ...) end", "local h = function(a, b, ..., c) end", "function f(..., a) end",
+                 "function f(a, ... b) end", "function f(a, ...,) end", "function f(a,) end", "local function g(a, ..., b, ...) end",
+                 "function t.m:n(self, ..., x) end", "f(function(a, ..., b) return a end)", "function f(a, b, ..., c, d) end",
+                 "function f(..., ...) end", "function f(... ,) end", "function f(a, ...) end", "function f(...) end", "function f(a, b) end",
+                 "x = {function(a, ...) end}", "f(a, ..., b)", "f(a, ..., ...)", "x = {a, ..., b}", "return function(a, ...) return ..., a end",
+                 "function f(a, ...)\n(g)(...) end", "function f(a --c\n, ... --[[x]] , b) end", "function f(a, ..., b, c, d, e, f) end"]
+PARLIST_VALID = {"function f(a, ...) end", "function f(...) end", "function f(a, b) end", "x = {function(a, ...) end}", "f(a, ..., b)",
+                 "f(a, ..., ...)", "x = {a, ..., b}", "return function(a, ...) return ..., a end", "function f(a, ...)\n(g)(...) end"}
+
+
 def gen_parse(rng, tier):
     nv, nm = N[tier]
     out = [hexs(t.encode()) + " " + ("V" if t in PAREN_VALID else "I") for t in PAREN_SEEDS]
+    out += [hexs(t.encode()) + " " + ("V" if t in PARLIST_VALID else "I") for t in PARLIST_SEEDS]
     for k in range(nv):
         g = luagen.Gen(rng, max_depth=rng.choice([1, 2, 2, 3, 4]))
         toks = g.chunk()
@@ -71,6 +159,11 @@ def gen_parse(rng, tier):
             out.append(hexs(luagen.render(mt, rng, "plain" if rng.random() < 0.5 else "wild")) + " " + v)
         if rng.random() < 0.6:
             mt = mutate_parens(toks, rng)
+            if mt is not None:
+                v = "V" if luagen.ref_valid(mt) and strings_valid(mt) else "I"
+                out.append(hexs(luagen.render(mt, rng, "plain" if rng.random() < 0.5 else "wild")) + " " + v)
+        if rng.random() < 0.6:
+            mt = mutate_parlist(toks, rng)
             if mt is not None:
                 v = "V" if luagen.ref_valid(mt) and strings_valid(mt) else "I"
                 out.append(hexs(luagen.render(mt, rng, "plain" if rng.random() < 0.5 else "wild")) + " " + v)
